@@ -103,8 +103,11 @@ def _sym(upper, n):
     return [[fx(v) for v in row] for row in m]
 
 
-def _pose(t, vals):
-    return {"t": t, "v": [fx(v) for v in vals]}
+def _pose(t, vals, angle_in_file=None):
+    s = {"t": t, "v": [fx(v) for v in vals]}
+    if angle_in_file is not None and -math.pi <= angle_in_file < math.pi:
+        s["exact_angle"] = True  # the number on the line is already a valid angle: it must be carried as it is
+    return s
 
 
 def reference_parse(text, custom):
@@ -129,7 +132,7 @@ def reference_parse(text, custom):
             elif head == "VERTEX_SE2":
                 x, y, th = (float(v) for v in f[1:4])
                 big = max(big, abs(th))
-                vertices.append({"id": int(f[0]), "pose": _pose("SE2", [x, y, exact_wrap(th)])})
+                vertices.append({"id": int(f[0]), "pose": _pose("SE2", [x, y, exact_wrap(th)], th)})
             elif head == "VERTEX_SE3:QUAT":
                 vertices.append({"id": int(f[0]), "pose": _pose("SE3", [float(x) for x in f[1:8]])})
             elif head == "EDGE_DISTANCE" and custom:
@@ -143,7 +146,7 @@ def reference_parse(text, custom):
                 nums = [float(x) for x in f[2:]]
                 big = max(big, abs(nums[2]))
                 edges.append({"kind": "odometry", "ids": [int(f[0]), int(f[1])],
-                              "estimate": _pose("SE2", [nums[0], nums[1], exact_wrap(nums[2])]), "information": _sym(nums[3:9], 3)})
+                              "estimate": _pose("SE2", [nums[0], nums[1], exact_wrap(nums[2])], nums[2]), "information": _sym(nums[3:9], 3)})
             elif head == "EDGE_SE3:QUAT":
                 nums = [float(x) for x in f[2:]]
                 q = nums[3:7]
@@ -162,7 +165,7 @@ def reference_parse(text, custom):
             elif head == "PARAMS_SE2OFFSET":
                 x, y, th = (float(v) for v in f[1:4])
                 big = max(big, abs(th))
-                params[("PARAMS_SE2OFFSET", int(f[0]))] = {"key": ["PARAMS_SE2OFFSET", int(f[0])], "v": _pose("SE2", [x, y, exact_wrap(th)])}
+                params[("PARAMS_SE2OFFSET", int(f[0]))] = {"key": ["PARAMS_SE2OFFSET", int(f[0])], "v": _pose("SE2", [x, y, exact_wrap(th)], th)}
             elif head == "PARAMS_SE3OFFSET":
                 params[("PARAMS_SE3OFFSET", int(f[0]))] = {"key": ["PARAMS_SE3OFFSET", int(f[0])], "v": _pose("SE3", [float(x) for x in f[1:8]])}
             else:
@@ -550,6 +553,26 @@ class C14(OptEngineBase):
                 m = simio.cmp_graph_specs(want, got, cycles=cyc)
                 if m is not None:
                     V("unfaithful:" + m[0], m[1] + " [file vs loaded]")
+                    break
+                # angles that are already in [-pi, pi) on the line are carried exactly (the wrap exemption is for angles
+                # that actually need wrapping)
+                strict = []
+                for k, (x, y) in enumerate(zip(want["vertices"], got["vertices"])):
+                    strict.append(("vertex #%d" % k, x["pose"], y["pose"]))
+                for k, (x, y) in enumerate(zip(want["edges"], got["edges"])):
+                    strict.append(("edge #%d estimate" % k, x["estimate"], y["estimate"]))
+                for x, y in zip(want.get("params") or [], got.get("params") or []):
+                    strict.append(("parameter %r" % (x["key"],), x["v"], y["v"]))
+                for what, x, y in strict:
+                    if x.get("exact_angle") and x["v"][2] != y["v"][2]:
+                        ax, ay = xf(x["v"][2]), xf(y["v"][2])
+                        if ax == ay:
+                            continue  # +0.0 / -0.0
+                        res.n_checks += 1
+                        bad = "%s: the angle on the line is %r (already in [-pi, pi)), the loaded angle is %r" % (what, ax, ay)
+                        break
+                if bad:
+                    V("unfaithful:angle-not-exact", bad)
                     break
                 # information matrices symmetric (bitwise), edges bound to the right vertices
                 for k, e in enumerate(g._edges):
